@@ -203,3 +203,92 @@ Print Assumptions C04_count_is_lines.
 Print Assumptions C04_source_recursive_guesses_is_model.
 Print Assumptions C04_source_create_guesses_is_product.
 Print Assumptions C04_source_never_out_of_fuel.
+
+(* ---------------------------------------------------------------- translator tie of _load_terminals (T19)
+
+   gen/Loader2Grammar_gen.v: lib_guesser/grammar_io.py _load_terminals, _load_from_multiple_files, _load_config,
+   load_grammar translated from the current source on every run (harness/translate_loader2.py over the dynamically
+   typed runtime theories/Loader2Rt.v).  The group-probability clause through the function that decides which
+   file becomes which group list: *)
+From Pcfg Require Import Loader2Rt Loader2Model Loader2GrammarGenProofs Loader2GrammarFacts.
+From PcfgGen Require Import Loader2Grammar_gen.
+
+(* _load_terminals IS Loader2Model.terminals: the seven sections of config.ini through _load_from_multiple_files
+   (CAPITALIZATION replaced by the all-lower groups under skip_case), then Omen/pcfg_omen_prob.txt with every level
+   split into its own group, e-mail providers and website hosts; the first load that returns False ends it *)
+Theorem C04_source_load_terminals_is_model :
+  forall (fo : LoaderRt.fops) (C SS : Type) (W : world fo C SS) (c : C) (v : cfg_view)
+         (ri g0 : list (pyval (LoaderRt.F fo) C SS * pyval (LoaderRt.F fo) C SS)) (base enc : LoaderRt.pstr) (skip : bool),
+  dfind (VStr k_encoding) ri = Some (VStr enc) -> cfg_view_ok fo W c v ->
+  py_load_terminals fo W (VDict ri) (VDict g0) (VStr base) (VCfg c) (VBool skip) = terminals fo W v base enc skip g0.
+Proof. exact (@load_terminals_eq). Qed.
+
+(* a list _load_from_multiple_files wrote is what the translated _load_from_file built from its file ... *)
+Theorem C04_source_terminal_lists_are_files :
+  forall (fo : LoaderRt.fops) (C SS : Type) (W : world fo C SS) (base dir name enc : LoaderRt.pstr) (files : list LoaderRt.pstr)
+         (g g' : list (pyval (LoaderRt.F fo) C SS * pyval (LoaderRt.F fo) C SS)),
+  multi_files fo W base dir name enc files g = XDone (VDict g', VBool true) ->
+  forall file, In file files ->
+  exists file' its, In file' files /\ stem file' = stem file /\
+    w_load_from_file W [] (w_path_join W [base; dir; file']) enc = LoaderRt.Done (its, true) /\
+    dfind (VStr (name ++ stem file)) g' = Some (val_of_items its).
+Proof. exact (@multi_files_lists). Qed.
+
+(* ... whose groups hold values of one probability (binary64, the reader of gen/Loader_gen.v) *)
+Theorem C04_source_terminal_group_same_prob :
+  forall (C SS : Type) (W : world F64ops C SS)
+         (ws : N -> bool) (pfloat : LoaderRt.pstr -> option PrimFloat.float) (encb : N -> bool) (reason : LoaderRt.pstr)
+         (copen : LoaderRt.pstr -> LoaderRt.pstr -> option LoaderRt.pstr -> option (list LoaderRt.pstr))
+         base dir name enc file (g g' : list (pyval PrimFloat.float C SS * pyval PrimFloat.float C SS)) lines,
+  w_load_from_file W = py_load_from_file F64ops ws pfloat (LoaderGenProofs.enc_of encb reason) copen ->
+  copen (w_path_join W [base; dir; file]) enc (Some surrogateescape) = Some lines ->
+  multi_step F64ops W base dir name enc file g = inl g' ->
+  exists gs its,
+    g' = dput (VStr (name ++ stem file)) (val_of_items gs) g /\
+    TextFile.guesser_items ws pfloat encb (onfail_of_reason reason) lines false = Some its /\
+    (forall it v, In it gs -> In v (LoaderRt.it_values it) -> exists q, In (v, q) its /\ same_prob q (LoaderRt.it_prob it)) /\
+    (forall v q, In (v, q) its -> exists it, In it gs /\ In v (LoaderRt.it_values it) /\ same_prob q (LoaderRt.it_prob it)).
+Proof. exact (@terminal_list_same_prob). Qed.
+
+(* --skip_case: every capitalisation list is ONE group, the all-lower mask of the length the file name says, with
+   probability 1.0 *)
+Theorem C04_source_skip_case_one_group :
+  forall (fo : LoaderRt.fops) (C SS : Type) (W : world fo C SS) (name : LoaderRt.pstr) (files : list LoaderRt.pstr)
+         (g g' : list (pyval (LoaderRt.F fo) C SS * pyval (LoaderRt.F fo) C SS)),
+  caps_files fo W name files g = XDone g' ->
+  forall file, In file files ->
+  exists n, w_pint W (stem file) = Some n /\
+            dfind (VStr (name ++ stem file)) g' = Some (val_of_items [lower_group fo n]) /\
+            LoaderRt.it_prob (lower_group fo n) = LoaderRt.f_one fo /\
+            LoaderRt.it_values (lower_group fo n) = [LoaderRt.rt_repeat k_L n].
+Proof. exact (@caps_files_groups). Qed.
+
+(* grammar['M']: one group per OMEN level, no level lost, each with the probability of the group it stood in *)
+Theorem C04_source_markov_levels_split :
+  forall (fo : LoaderRt.fops) (its : list (LoaderRt.rt_item (LoaderRt.F fo))),
+  flat_map (@LoaderRt.it_values _) (split_levels fo its) = flat_map (@LoaderRt.it_values _) its /\
+  (forall it, In it (split_levels fo its) ->
+     exists v it0, LoaderRt.it_values it = [v] /\ In it0 its /\ In v (LoaderRt.it_values it0) /\
+                   LoaderRt.it_prob it = LoaderRt.it_prob it0).
+Proof. exact (@split_levels_groups). Qed.
+
+(* the hypotheses are satisfiable and the translated _load_terminals runs (--skip_case, one alpha file, two
+   capitalisation files, every file two groups): A1 holds the file's groups, C1 / C2 one all-lower group of
+   probability 1.0 each, M one group per level *)
+Theorem C04_source_load_terminals_example :
+  cfg_view_ok gx_fo gx_world tt gx_view /\
+  exists G, py_load_terminals gx_fo gx_world (VDict [(VStr k_encoding, VStr [117; 116; 102; 45; 56]%N)]) (VDict [])
+              (VStr []) (VCfg tt) (VBool true) = XDone (VDict G, VBool true) /\
+    dfind (VStr [65; 49]%N) G = Some (val_of_items [{| LoaderRt.it_values := [[97%N]; [98%N]]; LoaderRt.it_prob := 1%Z |};
+                                                     {| LoaderRt.it_values := [[99%N]]; LoaderRt.it_prob := 0%Z |}]) /\
+    dfind (VStr [67; 49]%N) G = Some (val_of_items [lower_group gx_fo 1]) /\
+    dfind (VStr [67; 50]%N) G = Some (val_of_items [lower_group gx_fo 2]) /\
+    dfind (VStr k_M) G = Some (val_of_items [{| LoaderRt.it_values := [[97%N]]; LoaderRt.it_prob := 1%Z |};
+                                             {| LoaderRt.it_values := [[98%N]]; LoaderRt.it_prob := 1%Z |};
+                                             {| LoaderRt.it_values := [[99%N]]; LoaderRt.it_prob := 0%Z |}]).
+Proof. exact load_terminals_example. Qed.
+
+Print Assumptions C04_source_load_terminals_is_model.
+Print Assumptions C04_source_terminal_group_same_prob.
+Print Assumptions C04_source_skip_case_one_group.
+Print Assumptions C04_source_markov_levels_split.
